@@ -154,6 +154,16 @@ func runAcceptLoops(c *harness.Ctx) {
 	c.S.ArmSelect()
 	// the handlers are spawned by the accept loops: their go statements are
 	// tasks of the simulation in this scenario
+	if k := []int{0, 1, 3}[t.Draw("termmon.yield-density", 3)]; k > 0 {
+		salt := t.Draw("termmon.yield-salt", 1<<16)
+		c.S.YieldOn = func(site int) bool {
+			x := uint32(site)*2654435761 + uint32(salt)*40503
+			x ^= x >> 15
+			return int(x%uint32(k)) == 0
+		}
+	} else {
+		c.S.YieldOn = func(int) bool { return false }
+	}
 	verifrt.Activate(c.S)
 	c.AtEnd(verifrt.Deactivate)
 	m := newTermMonitor()
